@@ -10,7 +10,8 @@
    functions is tied by the certified samples (eps = 1e-9 relative), not proved.
    Axioms: the standard library's real numbers (see Print Assumptions below). *)
 From Coq Require Import Reals ZArith QArith List Lra.
-From GS Require Import model.TracerR proofs.TracerRProofs model.Num model.Builder proofs.TrackProofs proofs.HooksProofs proofs.ModeProofs.
+From GS Require Import model.TracerR proofs.TracerRProofs model.Num model.Builder proofs.TrackProofs proofs.HooksProofs proofs.ModeProofs
+  model.TracerQ proofs.TracerQProofs.
 Open Scope R_scope.
 
 (* arc (and circle, arc_radius through arc): starts at the current position *)
@@ -101,6 +102,16 @@ Theorem C10_vertex_exact : forall s v, tf s = aff_id ->
   let '(mv, tg) := transform_move s (to_distance_mode s v) in peq tg (resolve v).
 Proof. exact vertex_reached. Qed.
 Print Assumptions C10_vertex_exact.
+
+(* splines: gscrib's own part.  The interpolant (scipy CubicSpline, not modelled) is built on the current position followed
+   by the given points in their order, every point kept -- a later return to an earlier point included --, only immediate
+   repetitions merged: the given list is exactly the control list with some elements repeated in place *)
+Theorem C10_spline_controls : forall (A : Type) (eqb : A -> A -> bool), (forall a b, eqb a b = true <-> a = b) ->
+  forall origin pts,
+  hd_error (spline_controls A eqb origin pts) = Some origin /\
+  expands A (spline_controls A eqb origin pts) (origin :: pts) /\
+  (forall pre a b post, spline_controls A eqb origin pts = pre ++ a :: b :: post -> a <> b).
+Proof. exact spline_controls_spec. Qed.
 
 (* non-vacuity: a quarter circle from (10,0) about the origin, counter-clockwise: sweep PI/2 *)
 Example C10_nonvacuous : arc_total CCW 10 0 0 10 0 0 = PI / 2 /\ arc_r 10 0 0 0 = arc_rt 0 10 0 0.
